@@ -57,12 +57,27 @@ func c14Derived(c *run.Ctx) {
 		src := fmt.Sprintf(`%s
 %s
 var<private> g: i32 = k * 3 + 1;
-struct Out { cnt: atomic<u32>, v: array<i32, 40>, }
+struct Out { cnt: atomic<u32>, v: array<i32, 40>, w: array<i32, 12>, }
 @group(0) @binding(0) var<storage, read_write> o: Out;
 @compute %s
 fn main(@builtin(local_invocation_index) li: u32) {
     o.v[li] = g + i32(li);
     atomicAdd(&o.cnt, 1u);
+    if li == 0u {
+        // override-expressions in a function body: every operator on the resolved value
+        o.w[0] = k %% 4;
+        o.w[1] = k / 3;
+        o.w[2] = k >> 1u;
+        o.w[3] = -k;
+        o.w[4] = ~k;
+        o.w[5] = i32(k < 0);
+        o.w[6] = abs(k);
+        o.w[7] = k * k - 7;
+        o.w[8] = min(k, 3) + max(k, -3);
+        o.w[9] = (k & 6) | (k ^ 9);
+        o.w[10] = k << 2u;
+        o.w[11] = 7 %% (abs(k) + 1);
+    }
 }
 `, nDecl, kDecl, wgAttr)
 		w := map[string]any{"wgsl": src, "pipeline_constants": fmt.Sprint(pc)}
@@ -92,6 +107,40 @@ fn main(@builtin(local_invocation_index) li: u32) {
 				ran = int(got) // listed finding: go on checking the values of the invocations that did run
 				cov["known-finding-instances:derived:"+path+":workgroup-size"]++
 			}
+			k32 := int32(valK)
+			abs := func(x int32) int32 {
+				if x < 0 {
+					return -x
+				}
+				return x
+			}
+			b2i := func(b bool) int32 {
+				if b {
+					return 1
+				}
+				return 0
+			}
+			mn := func(a, b int32) int32 {
+				if a < b {
+					return a
+				}
+				return b
+			}
+			mx := func(a, b int32) int32 {
+				if a > b {
+					return a
+				}
+				return b
+			}
+			wantW := []int32{k32 % 4, k32 / 3, k32 >> 1, -k32, ^k32, b2i(k32 < 0), abs(k32), k32*k32 - 7, mn(k32, 3) + mx(k32, -3), (k32 & 6) | (k32 ^ 9), k32 << 2, 7 % (abs(k32) + 1)}
+			for wi, w := range wantW {
+				if got := int32(binary.LittleEndian.Uint32(buf[164+4*wi:])); got != w {
+					o := viol(path+":body-expression", fmt.Sprintf("[%s] w[%d] = %d, WGSL prescribes %d (k=%d)", path, wi, got, w, valK))
+					if o.V == run.Violated {
+						return &o
+					}
+				}
+			}
 			for li := 0; li < 40; li++ {
 				got := int32(binary.LittleEndian.Uint32(buf[4+4*li:]))
 				want := int32(0)
@@ -110,7 +159,7 @@ fn main(@builtin(local_invocation_index) li: u32) {
 			return nil
 		}
 		// IR interpreter on the resolved module
-		bufs := xrt.Buffers{xrt.Slot{A: 0, B: 0}: make([]byte, 164)}
+		bufs := xrt.Buffers{xrt.Slot{A: 0, B: 0}: make([]byte, 212)}
 		if res, err := irx.Run(clone, "main", bufs, irx.Config{}); err != nil || len(res.Traps) > 0 {
 			return id, viol("irx:exec-error", fmt.Sprint(err, res.Traps))
 		}
@@ -127,7 +176,7 @@ fn main(@builtin(local_invocation_index) li: u32) {
 		if err != nil {
 			return id, run.Outcome{V: run.Inconclusive, Reason: "spvx: " + err.Error()}
 		}
-		bufs = xrt.Buffers{xrt.Slot{A: 0, B: 0}: make([]byte, 164)}
+		bufs = xrt.Buffers{xrt.Slot{A: 0, B: 0}: make([]byte, 212)}
 		if res, err := spvx.Run(sm, "main", bufs, xrt.Options{}); err != nil || len(res.Traps) > 0 {
 			return id, viol("spirv:exec-error", fmt.Sprint(err, res.Traps))
 		}
